@@ -36,6 +36,8 @@ class Ctx:
         self.known = []        # lines already printed
         self.notes = []
         self._n = 0
+        import threading
+        self._buildlock = threading.Lock()
 
     def quick(self):
         return self.tier == "quick"
@@ -48,6 +50,10 @@ class Ctx:
 
     # ------------------------------------------------------------------ harness
     def build(self, race=False):
+        with self._buildlock:
+            return self._build(race)
+
+    def _build(self, race=False):
         out = self.path("vrun-race" if race else "vrun")
         if os.path.exists(out):
             return out
@@ -96,7 +102,7 @@ class Ctx:
             return list(ex.map(lambda a: self.vrun(a, race), jobs))
 
     # ------------------------------------------------------------------ TLC
-    def tlc(self, module, cfg, env=None, workers=1, timeout=1800, extra=None, heap="3g", dfs=False):
+    def tlc(self, module, cfg, env=None, workers=1, timeout=1800, extra=None, heap="3g", dfs=False, stdout_file=None):
         self._n += 1
         md = self.path("md-%d" % self._n)
         jopts = ["-Xmx" + heap, "-Xss64m", "-Djava.io.tmpdir=" + self.path("tmp")]
@@ -110,7 +116,16 @@ class Ctx:
         if env:
             e.update(env)
         try:
-            p = subprocess.run(cmd, cwd=self.spec, env=e, capture_output=True, text=True, timeout=timeout)
+            if stdout_file:
+                with open(stdout_file, "w") as so:
+                    p = subprocess.run(cmd, cwd=self.spec, env=e, stdout=so, stderr=subprocess.PIPE, text=True, timeout=timeout)
+                # only the tail is needed for the statistics
+                with open(stdout_file, "rb") as so:
+                    so.seek(0, 2)
+                    so.seek(max(0, so.tell() - 20000))
+                    p.stdout = so.read().decode(errors="replace")
+            else:
+                p = subprocess.run(cmd, cwd=self.spec, env=e, capture_output=True, text=True, timeout=timeout)
         except subprocess.TimeoutExpired:
             subprocess.run(["pkill", "-f", md], capture_output=True)
             shutil.rmtree(md, ignore_errors=True)
